@@ -55,6 +55,12 @@ class VecOf(T):
     def __repr__(self): return 'VecOf(%r,%d)' % (self.t, self.n)
 
 
+class ListLit(T):
+    """python list of fixed length with a type per entry"""
+    def __init__(self, *ts): self.ts = ts
+    def __repr__(self): return 'ListLit%r' % (self.ts,)
+
+
 class Obj(T):
     def __init__(self, cls, **fields): self.cls, self.fields = cls, fields
     def __repr__(self): return 'Obj(%s)' % self.cls
